@@ -20,6 +20,12 @@
   of the whole-solver model `Solver.pass` with second-order cones (`pass_is_newton_step`,
   `pass_residual_contraction`, `pass_mu_update_partial`); the PSD combined step from the LAPACK
   contracts alone (`psd_combined_step_from_contracts`).
+
+  Round 9: the one-pass theorems along a WHOLE `solve()` (`solve_pass_is_newton`,
+  `solve_every_pass_is_newton`, `solve_every_pass_is_newton_total`, `solve_residuals_product`): every
+  accepted pass recorded in the trajectory takes the Newton step, contracts the residuals by
+  `1 − α(1−σ)` and updates `μ` by the exact formula, under exactness of ITS two reduced solves
+  (`PassExact`); interior-ness is threaded from `default_start()` (`Lemmas/StepPassTraj.lean`).
 -/
 import ClarabelModel.Step
 import ClarabelModel.KktSystem
@@ -41,6 +47,9 @@ import ClarabelProofs.Lemmas.StepPassMu
 import ClarabelProofs.Lemmas.StepPassMuZero
 import ClarabelProofs.Lemmas.StepPassMuStart
 import ClarabelProofs.Lemmas.StepPassMuExample
+import ClarabelProofs.Lemmas.StepPassTraj
+import ClarabelProofs.Lemmas.StepPassRange
+import ClarabelProofs.Lemmas.SolverTotal
 import Mathlib.Tactic.NormNum
 import Mathlib.Tactic.Positivity
 
@@ -2104,5 +2113,331 @@ example : ∃ K RRt, assembleScaling 1 (#[2] : Array ℝ) #[2] #[1] #[1] #[4] = 
   exact ⟨K, RRt, hK, hn⟩
 
 end psd6
+
+/-! ## Round 9: every accepted pass of a whole `solve()`
+
+The one-pass theorems of section `pass` need, at the pass they speak about, the size invariant
+`PassShape`, `P` upper triangular, `τ ≠ 0` and the interior-ness hypothesis `ConesInterior`.  Along a
+`solve()` of the solver object `DefaultSolver::new` returns (any object satisfying C04's `SolverInvQ`)
+all of them hold at EVERY accepted pass: `Solver.solvePass_invariants` (`Lemmas/StepPassTraj.lean`)
+threads C04's `Shapes` and `pass_keeps_interior_hypothesis` from `start_interior_hypothesis` along
+the accepted passes.  What remains a hypothesis is the exactness of the two reduced linear solves of
+the pass and `tauDen ≠ 0`, as a predicate `PassExact` on the pass.
+
+`Solver.SolvePass S st L L'`: `L → L'` is an accepted pass of `S.solve st` — `L` is reached from
+`default_start()` of the (info-reset) solver object through accepted passes and
+`pass st L = .ok (true, L')`.  `Solver.solve_record` identifies these passes with the records of the
+trajectory `r.traj` the `solve.full` channel compares bit for bit with the implementation: record `k`
+holds the iterate of the `k`-th loop state, and unless it is the last record the pass was accepted
+and the record holds its `α` (`alpha`), `σ` (`sigmaNew`) and `μ` (`mu`). -/
+section solve
+open Clarabel.Solver
+
+/-- **exactness of the two reduced solves of the pass `L → L'`** (the per-pass hypothesis of the
+solve-level theorems): the vectors the pass leaves in `kktsystem.{x1,z1}` / `{x2,z2}` solve
+`[P Aᵀ; A −Hs]·(x, z) = (rhs.x, Δs_const − rhs.z)` / `= (−q, b)` exactly, `Hs` the dense block of the
+cones the pass rescaled, and the denominator of the `Δτ` formula does not vanish -/
+structure PassExact (L L' : LoopSt ℝ) (n m : ℕ) : Prop where
+  h1x : KktSystem.symMat L.S.data.P n *ᵥ toFn L'.S.kktsystem.x1 n
+        + (denseA L.S.data.A m n)ᵀ *ᵥ toFn L'.S.kktsystem.z1 m = toFn L'.S.stepRhs.x n
+  h1z : denseA L.S.data.A m n *ᵥ toFn L'.S.kktsystem.x1 n
+        - hsMat L'.S.cones m *ᵥ toFn L'.S.kktsystem.z1 m
+        = toFn L'.S.kktsystem.workConic m - toFn L'.S.stepRhs.z m
+  h2x : KktSystem.symMat L.S.data.P n *ᵥ toFn L'.S.kktsystem.x2 n
+        + (denseA L.S.data.A m n)ᵀ *ᵥ toFn L'.S.kktsystem.z2 m = -toFn L.S.data.q n
+  h2z : denseA L.S.data.A m n *ᵥ toFn L'.S.kktsystem.x2 n
+        - hsMat L'.S.cones m *ᵥ toFn L'.S.kktsystem.z2 m = toFn L.S.data.b m
+  hden : KktSystem.tauDen L.S.variables.κ L.S.variables.τ
+        (toFn L.S.data.q n ⬝ᵥ toFn L'.S.kktsystem.x2 n) (toFn L.S.data.b m ⬝ᵥ toFn L'.S.kktsystem.z2 m)
+        (((-1 : ℝ) • toFn L'.S.kktsystem.x2 n + (1 : ℝ) • ((1 / L.S.variables.τ) • toFn L.S.variables.x n)) ⬝ᵥ
+          KktSystem.symMat L.S.data.P n *ᵥ ((-1 : ℝ) • toFn L'.S.kktsystem.x2 n
+            + (1 : ℝ) • ((1 / L.S.variables.τ) • toFn L.S.variables.x n)))
+        (toFn L'.S.kktsystem.x2 n ⬝ᵥ KktSystem.symMat L.S.data.P n *ᵥ toFn L'.S.kktsystem.x2 n) ≠ 0
+
+/-- **what the one-pass theorems say about the pass `L → L'`**, bundled: (`newton`, `step_*`) the
+direction in `L'.S.stepLhs` is the Newton step of the homogeneous embedding at the old iterate with
+right-hand side `(1−σ)(rx, rz, rτ)` and the new iterate is `add_step(α)` along it
+(`pass_is_newton_step`); (`rx`, `rz`, `rτ`) the residuals contract by `1 − α(1−σ)`
+(`pass_residual_contraction`); (`mu`) the exact `μ⁺` formula (`pass_mu_update`); `α = L'.alpha`,
+`σ = L'.sigma`, `μ = L'.mu` -/
+structure PassIsNewton (st : Settings ℝ) (L L' : LoopSt ℝ) (n m : ℕ) : Prop where
+  newton : IsNewtonStep (KktSystem.symMat L.S.data.P n) (denseA L.S.data.A m n) (hsMat L'.S.cones m)
+        (toFn L.S.data.q n) (toFn L.S.data.b m) (toFn L.S.variables.x n) L.S.variables.τ L.S.variables.κ
+        ((1 - L'.sigma) • resX (KktSystem.symMat L.S.data.P n) (denseA L.S.data.A m n) (toFn L.S.data.q n)
+          (toFn L.S.variables.x n) (toFn L.S.variables.z m) L.S.variables.τ)
+        ((1 - L'.sigma) • resZ (denseA L.S.data.A m n) (toFn L.S.data.b m) (toFn L.S.variables.x n)
+          (toFn L.S.variables.s m) L.S.variables.τ)
+        ((1 - L'.sigma) * resT (KktSystem.symMat L.S.data.P n) (toFn L.S.data.q n) (toFn L.S.data.b m)
+          (toFn L.S.variables.x n) (toFn L.S.variables.z m) L.S.variables.τ L.S.variables.κ)
+        (toFn L'.S.kktsystem.workConic m) L'.S.stepRhs.κ
+        ⟨toFn L'.S.stepLhs.x n, toFn L'.S.stepLhs.s m, toFn L'.S.stepLhs.z m, L'.S.stepLhs.τ,
+          L'.S.stepLhs.κ⟩
+  step_x : toFn L'.S.variables.x n = toFn L.S.variables.x n + L'.alpha • toFn L'.S.stepLhs.x n
+  step_s : toFn L'.S.variables.s m = toFn L.S.variables.s m + L'.alpha • toFn L'.S.stepLhs.s m
+  step_z : toFn L'.S.variables.z m = toFn L.S.variables.z m + L'.alpha • toFn L'.S.stepLhs.z m
+  step_τ : L'.S.variables.τ = L.S.variables.τ + L'.alpha * L'.S.stepLhs.τ
+  step_κ : L'.S.variables.κ = L.S.variables.κ + L'.alpha * L'.S.stepLhs.κ
+  rx : resX (KktSystem.symMat L.S.data.P n) (denseA L.S.data.A m n) (toFn L.S.data.q n)
+        (toFn L'.S.variables.x n) (toFn L'.S.variables.z m) L'.S.variables.τ
+      = (1 - L'.alpha * (1 - L'.sigma)) • resX (KktSystem.symMat L.S.data.P n) (denseA L.S.data.A m n)
+          (toFn L.S.data.q n) (toFn L.S.variables.x n) (toFn L.S.variables.z m) L.S.variables.τ
+  rz : resZ (denseA L.S.data.A m n) (toFn L.S.data.b m) (toFn L'.S.variables.x n)
+        (toFn L'.S.variables.s m) L'.S.variables.τ
+      = (1 - L'.alpha * (1 - L'.sigma)) • resZ (denseA L.S.data.A m n) (toFn L.S.data.b m)
+          (toFn L.S.variables.x n) (toFn L.S.variables.s m) L.S.variables.τ
+  rτ : resT (KktSystem.symMat L.S.data.P n) (toFn L.S.data.q n) (toFn L.S.data.b m)
+        (toFn L'.S.variables.x n) (toFn L'.S.variables.z m) L'.S.variables.τ L'.S.variables.κ
+      = (1 - L'.alpha * (1 - L'.sigma)) * resT (KktSystem.symMat L.S.data.P n) (toFn L.S.data.q n)
+          (toFn L.S.data.b m) (toFn L.S.variables.x n) (toFn L.S.variables.z m) L.S.variables.τ
+          L.S.variables.κ
+        + L'.alpha ^ 2 * ((toFn L'.S.stepLhs.x n - L'.S.stepLhs.τ • ((1 / L.S.variables.τ) • toFn L.S.variables.x n)) ⬝ᵥ
+            KktSystem.symMat L.S.data.P n *ᵥ (toFn L'.S.stepLhs.x n
+              - L'.S.stepLhs.τ • ((1 / L.S.variables.τ) • toFn L.S.variables.x n)))
+          / L'.S.variables.τ
+  mu : ∃ (dsA dzA : Fin m → ℝ) (mcorr : ℝ), PassAffineStep st L L' m dsA dzA mcorr
+      ∧ L'.mu = (toFn L.S.variables.s m ⬝ᵥ toFn L.S.variables.z m + L.S.variables.τ * L.S.variables.κ)
+          / ((degreeAll L.S.cones : ℝ) + 1)
+      ∧ L.S.variables.κ * L'.S.stepLhs.τ + L.S.variables.τ * L'.S.stepLhs.κ = -L'.S.stepRhs.κ
+      ∧ (toFn L'.S.variables.s m ⬝ᵥ toFn L'.S.variables.z m + L'.S.variables.τ * L'.S.variables.κ)
+          / ((degreeAll L.S.cones : ℝ) + 1)
+        = (1 - L'.alpha * (1 - L'.sigma)) * L'.mu
+          - L'.alpha * (mcorr * (dsA ⬝ᵥ dzA)
+              + (L'.S.stepRhs.κ + L'.sigma * L'.mu - L.S.variables.τ * L.S.variables.κ))
+              / ((degreeAll L.S.cones : ℝ) + 1)
+          + L'.alpha ^ 2 * (toFn L'.S.stepLhs.s m ⬝ᵥ toFn L'.S.stepLhs.z m + L'.S.stepLhs.τ * L'.S.stepLhs.κ)
+              / ((degreeAll L.S.cones : ℝ) + 1)
+
+/-- [R] **an accepted pass of a `solve()` whose two reduced solves were exact is a Newton pass.**
+For a solver object satisfying C04's invariant `SolverInvQ` (every object `DefaultSolver::new`
+returns, `Solver.solverNew_ok_of_modelled`; every object a `solve()` left), `0 < max_step_fraction
+< 1`, `T::max_value() > 0`: at every accepted pass `L → L'` of `S.solve st` (`SolvePass`) the
+state is on the solver's data, the iterate is interior (`τ, κ > 0` before and after), and under
+`PassExact` the pass takes the Newton step with right-hand side `(1−σ)(rx, rz, rτ)`, contracts the
+residuals by `1 − α(1−σ)` and updates `μ` by the exact formula (`PassIsNewton`).  No interior-ness,
+shape or triangularity hypothesis: they are threaded from `default_start()`. -/
+theorem solve_pass_is_newton {S : Solver.Solver ℝ} {st : Settings ℝ} (hI : SolverInvQ S)
+    (h0 : 0 < st.maxStepFraction) (h1 : st.maxStepFraction < 1) (hm : 0 < st.maxValue)
+    {L L' : LoopSt ℝ} (hp : SolvePass S st L L')
+    (hex : PassExact L L' S.st.data.n S.st.data.m) :
+    L.S.data = S.st.data ∧ L'.S.data = S.st.data
+      ∧ 0 < L.S.variables.τ ∧ 0 < L.S.variables.κ ∧ 0 < L'.S.variables.τ ∧ 0 < L'.S.variables.κ
+      ∧ ConesInterior L.S.cones L.S.variables.s.toList L.S.variables.z.toList
+      ∧ PassIsNewton st L L' S.st.data.n S.st.data.m := by
+  obtain ⟨hS, hd, hPt, hpass, hint, t1, k1, t2, k2⟩ := Solver.solvePass_invariants hI h0 h1 hm hp
+  obtain ⟨hN, ex, es, ez, eτ, eκ⟩ := pass_is_newton_step hS hPt hpass (ne_of_gt t1) hex.h1x hex.h1z
+    hex.h2x hex.h2z hex.hden
+  obtain ⟨c1, c2, c3⟩ := pass_residual_contraction hS hPt hpass (ne_of_gt t1) (ne_of_gt t2) hex.h1x
+    hex.h1z hex.h2x hex.h2z hex.hden
+  have hmu := pass_mu_update hS hPt hpass (ne_of_gt t1) hex.h1x hex.h1z hex.h2x hex.h2z hex.hden hint
+  exact ⟨hd, (Solver.pass_data hpass).trans hd, t1, k1, t2, k2, hint,
+    ⟨hN, ex, es, ez, eτ, eκ, c1, c2, c3, hmu⟩⟩
+
+/-- [R] **every accepted pass recorded in the trajectory of a `solve()` is a Newton pass.**  Let
+`S.solve st = .ok r`.  For every record `p = r.traj[k]` that is not the last one there are loop
+states `L → L'` (an accepted pass of the solve, `SolvePass`) with `L.traj = r.traj.take k` (`L` is
+the `k`-th loop state), `p.vars` the iterate of `L`, the next record `p' = r.traj[k+1]` the iterate
+of `L'`, `p.alpha = some α`, `p.sigmaNew = some σ`, `p.mu = μ` the step length, centring parameter
+and `μ` of that pass (`p'.stepLength = α`, `p'.sigma = σ` as well) — and, if the two reduced solves of
+every accepted pass were exact (`PassExact`), the pass satisfies `PassIsNewton`: Newton step with
+right-hand side `(1−σ)(rx, rz, rτ)`, residual contraction by `1 − α(1−σ)`, the `μ⁺` formula; both
+iterates have `τ, κ > 0`. -/
+theorem solve_every_pass_is_newton {S : Solver.Solver ℝ} {st : Settings ℝ} {r : SolveResult ℝ}
+    (hI : SolverInvQ S) (hr : S.solve st = .ok r)
+    (h0 : 0 < st.maxStepFraction) (h1 : st.maxStepFraction < 1) (hm : 0 < st.maxValue)
+    (hex : ∀ L L', SolvePass S st L L' → PassExact L L' S.st.data.n S.st.data.m)
+    (k : ℕ) (p : PassRec ℝ) (hk : r.traj[k]? = some p) (hlast : k + 1 < r.traj.length) :
+    ∃ (L L' : LoopSt ℝ) (p' : PassRec ℝ), SolvePass S st L L' ∧ L.traj = r.traj.take k
+      ∧ p.vars = L.S.variables ∧ r.traj[k + 1]? = some p' ∧ p'.vars = L'.S.variables
+      ∧ p.alpha = some L'.alpha ∧ p.sigmaNew = some L'.sigma ∧ p.mu = L'.mu
+      ∧ p'.stepLength = L'.alpha ∧ p'.sigma = L'.sigma
+      ∧ L.S.data = S.st.data
+      ∧ 0 < L.S.variables.τ ∧ 0 < L.S.variables.κ ∧ 0 < L'.S.variables.τ ∧ 0 < L'.S.variables.κ
+      ∧ PassIsNewton st L L' S.st.data.n S.st.data.m := by
+  obtain ⟨S0, L, hds, hR, e1, e2, -, -, hnext⟩ := Solver.solve_record hr k p hk
+  obtain ⟨L', p', hsp, a1, a2, a3, a4, a5, a6, a7⟩ := hnext hlast
+  obtain ⟨d1, -, t1, k1, t2, k2, -, hN⟩ := solve_pass_is_newton hI h0 h1 hm hsp (hex L L' hsp)
+  exact ⟨L, L', p', hsp, e1, e2, a4, a5, a1, a2, a3, a7, a6, d1, t1, k1, t2, k2, hN⟩
+
+/-- [R] **total form**: for well-formed input (`InputOK`) with zero / nonnegative / second-order
+cones, a valid ordering (`PermFor`) and regularisation that leaves no zero pivot (`PivotOK`) —
+the hypotheses of C04's `run_total` — `DefaultSolver::new` returns a solver object, its `solve()`
+returns, and every record of the trajectory but the last is the record of a Newton pass
+(`solve_every_pass_is_newton`). -/
+theorem solve_every_pass_is_newton_total {P : Csc ℝ} {q : Array ℝ} {A : Csc ℝ} {b : Array ℝ}
+    {cones : List (ConeT ℝ)} {st : Settings ℝ} {perm : Array Nat} (hin : InputOK P q A b cones)
+    (hmod : ∀ c ∈ cones, ConeT.modelled c) (hn : 0 < P.n) (hperm : PermFor P q A b cones st perm)
+    (hpiv : PivotOK st.lin)
+    (h0 : 0 < st.maxStepFraction) (h1 : st.maxStepFraction < 1) (hm : 0 < st.maxValue) :
+    ∃ S r, Solver.Solver.new P q A b cones st perm = .ok S ∧ S.solve st = .ok r
+      ∧ ((∀ L L', SolvePass S st L L' → PassExact L L' S.st.data.n S.st.data.m) →
+        ∀ (k : ℕ) (p : PassRec ℝ), r.traj[k]? = some p → k + 1 < r.traj.length →
+          ∃ (L L' : LoopSt ℝ) (p' : PassRec ℝ), SolvePass S st L L' ∧ L.traj = r.traj.take k
+            ∧ p.vars = L.S.variables ∧ r.traj[k + 1]? = some p' ∧ p'.vars = L'.S.variables
+            ∧ p.alpha = some L'.alpha ∧ p.sigmaNew = some L'.sigma ∧ p.mu = L'.mu
+            ∧ p'.stepLength = L'.alpha ∧ p'.sigma = L'.sigma
+            ∧ L.S.data = S.st.data
+            ∧ 0 < L.S.variables.τ ∧ 0 < L.S.variables.κ ∧ 0 < L'.S.variables.τ ∧ 0 < L'.S.variables.κ
+            ∧ PassIsNewton st L L' S.st.data.n S.st.data.m) := by
+  obtain ⟨S, r, hnew, hr, hI, -⟩ := Solver.run_total hin hmod hn hperm hpiv Solver.fmaxOK_real
+  exact ⟨S, r, hnew, hr, fun hex k p hk hl => solve_every_pass_is_newton hI hr h0 h1 hm hex k p hk hl⟩
+
+/-- [R] **the residuals along a `solve()` are the initial ones times the product of the factors
+`1 − αᵢ(1−σᵢ)`.**  If the two reduced solves of every accepted pass were exact, then for EVERY
+record `p = r.traj[k]` (the last one included) the residuals `rx`, `rz` of the recorded iterate are
+`Π_{i<k} (1 − αᵢ(1−σᵢ))` times those of the starting point `S0 = default_start()`, the factors read
+from the records before it (`Solver.passFactor pᵢ = 1 − pᵢ.alpha · (1 − pᵢ.sigmaNew)`); in
+particular `‖rx‖`, `‖rz‖` are multiplied by `|Π …|` and, the factors lying in `[0, 1]` when
+`α, σ ∈ [0, 1]`, never increase. -/
+theorem solve_residuals_product {S : Solver.Solver ℝ} {st : Settings ℝ} {r : SolveResult ℝ}
+    (hI : SolverInvQ S) (hr : S.solve st = .ok r)
+    (h0 : 0 < st.maxStepFraction) (h1 : st.maxStepFraction < 1) (hm : 0 < st.maxValue)
+    (hex : ∀ L L', SolvePass S st L L' → PassExact L L' S.st.data.n S.st.data.m) :
+    ∃ S0, (resetInfo S.st).defaultStart st = .ok S0 ∧ ∀ (k : ℕ) (p : PassRec ℝ), r.traj[k]? = some p →
+      resX (KktSystem.symMat S.st.data.P S.st.data.n) (denseA S.st.data.A S.st.data.m S.st.data.n)
+          (toFn S.st.data.q S.st.data.n) (toFn p.vars.x S.st.data.n) (toFn p.vars.z S.st.data.m) p.vars.τ
+        = ((r.traj.take k).map Solver.passFactor).prod •
+          resX (KktSystem.symMat S.st.data.P S.st.data.n) (denseA S.st.data.A S.st.data.m S.st.data.n)
+            (toFn S.st.data.q S.st.data.n) (toFn S0.variables.x S.st.data.n)
+            (toFn S0.variables.z S.st.data.m) S0.variables.τ
+      ∧ resZ (denseA S.st.data.A S.st.data.m S.st.data.n) (toFn S.st.data.b S.st.data.m)
+          (toFn p.vars.x S.st.data.n) (toFn p.vars.s S.st.data.m) p.vars.τ
+        = ((r.traj.take k).map Solver.passFactor).prod •
+          resZ (denseA S.st.data.A S.st.data.m S.st.data.n) (toFn S.st.data.b S.st.data.m)
+            (toFn S0.variables.x S.st.data.n) (toFn S0.variables.s S.st.data.m) S0.variables.τ := by
+  obtain ⟨S0, Lm, Lf, hds, hRm, hb, ht⟩ := Solver.solve_traj_states hr
+  refine ⟨S0, hds, fun k p hk => ?_⟩
+  obtain ⟨S0', L, hds', hR, e1, e2, -⟩ := Solver.solve_record hr k p hk
+  rw [hds] at hds'
+  cases hds'
+  have hstep : ∀ La Lb, Reach st (initLoopSt S0) La → pass st La = .ok (true, Lb) →
+      PassIsNewton st La Lb S.st.data.n S.st.data.m ∧ La.S.data = S.st.data := by
+    intro La Lb hRa hpa
+    have hsp : SolvePass S st La Lb := ⟨S0, hds, hRa, hpa⟩
+    obtain ⟨d1, -, -, -, -, -, -, hN⟩ := solve_pass_is_newton hI h0 h1 hm hsp (hex La Lb hsp)
+    exact ⟨hN, d1⟩
+  have hx := Solver.reach_product (st := st) (L0 := initLoopSt S0)
+    (fun v => resX (KktSystem.symMat S.st.data.P S.st.data.n)
+      (denseA S.st.data.A S.st.data.m S.st.data.n) (toFn S.st.data.q S.st.data.n)
+      (toFn v.x S.st.data.n) (toFn v.z S.st.data.m) v.τ)
+    (fun La Lb hRa hpa => by
+      obtain ⟨hN, d1⟩ := hstep La Lb hRa hpa
+      have := hN.rx
+      rw [d1] at this
+      exact this) hR
+  have hz := Solver.reach_product (st := st) (L0 := initLoopSt S0)
+    (fun v => resZ (denseA S.st.data.A S.st.data.m S.st.data.n) (toFn S.st.data.b S.st.data.m)
+      (toFn v.x S.st.data.n) (toFn v.s S.st.data.m) v.τ)
+    (fun La Lb hRa hpa => by
+      obtain ⟨hN, d1⟩ := hstep La Lb hRa hpa
+      have := hN.rz
+      rw [d1] at this
+      exact this) hR
+  have hdrop : L.traj.drop (initLoopSt S0).traj.length = r.traj.take k := by
+    rw [e1]; rfl
+  rw [hdrop] at hx hz
+  rw [e2]
+  exact ⟨hx, hz⟩
+
+/-- [R] **the step length, centring parameter and contraction factor of every accepted pass of a
+`solve()`**: `0 < α ≤ max_step_fraction < 1` (`calc_step_length(Combined)` from an interior iterate,
+C07's `interior_step`, and the `strategy_checkpoint_small_step` the pass passed), `0 ≤ σ ≤ 1`
+(`σ = (1 − α_aff)³` with `0 ≤ α_aff ≤ α_max ≤ 1`), hence the factor `1 − α(1−σ)` by which
+`solve_every_pass_is_newton` contracts the residuals lies in `(0, 1]`.  No exactness hypothesis. -/
+theorem solve_pass_factor_range {S : Solver.Solver ℝ} {st : Settings ℝ} (hI : SolverInvQ S)
+    (h0 : 0 < st.maxStepFraction) (h1 : st.maxStepFraction < 1) (hm : 0 < st.maxValue)
+    {L L' : LoopSt ℝ} (hp : SolvePass S st L L') :
+    0 < L'.alpha ∧ L'.alpha ≤ st.maxStepFraction ∧ 0 ≤ L'.sigma ∧ L'.sigma ≤ 1
+      ∧ 0 < 1 - L'.alpha * (1 - L'.sigma) ∧ 1 - L'.alpha * (1 - L'.sigma) ≤ 1 :=
+  Solver.solvePass_factor_range hI h0 h1 hm hp
+
+/-- [R] **the residuals never grow along a `solve()`**: the multiplier
+`Π_{i<k} (1 − αᵢ(1−σᵢ))` of `solve_residuals_product` lies in `(0, 1]` for every record `k` of the
+trajectory, and the multiplier of record `k + 1` is that of record `k` times a factor in `(0, 1]` —
+so (under `PassExact` of the passes) `rx`, `rz` of every recorded iterate are the initial ones
+scaled by a number in `(0, 1]` that is nonincreasing in `k`. -/
+theorem solve_residuals_monotone {S : Solver.Solver ℝ} {st : Settings ℝ} {r : SolveResult ℝ}
+    (hI : SolverInvQ S) (hr : S.solve st = .ok r)
+    (h0 : 0 < st.maxStepFraction) (h1 : st.maxStepFraction < 1) (hm : 0 < st.maxValue)
+    (k : ℕ) (hk : k < r.traj.length) :
+    0 < ((r.traj.take k).map Solver.passFactor).prod ∧ ((r.traj.take k).map Solver.passFactor).prod ≤ 1
+      ∧ (k + 1 < r.traj.length →
+          ((r.traj.take (k + 1)).map Solver.passFactor).prod ≤ ((r.traj.take k).map Solver.passFactor).prod) := by
+  obtain ⟨i0, i1⟩ := Solver.solve_factors_range hI hr h0 h1 hm k hk
+  refine ⟨i0, i1, fun hk1 => ?_⟩
+  obtain ⟨S0, L, hds, hR, e1, e2, -, -, hnext⟩ :=
+    Solver.solve_record hr k r.traj[k] (List.getElem?_eq_getElem hk)
+  obtain ⟨L', p', hsp, a1, a2, -⟩ := hnext hk1
+  obtain ⟨-, -, -, -, f0, f1⟩ := Solver.solvePass_factor_range hI h0 h1 hm hsp
+  have hf : Solver.passFactor r.traj[k] = 1 - L'.alpha * (1 - L'.sigma) := by
+    unfold Solver.passFactor; rw [a1, a2]; rfl
+  rw [List.take_add_one, List.getElem?_eq_getElem hk, Option.toList_some, List.map_append,
+    List.prod_append, List.map_singleton, List.prod_singleton, hf]
+  exact mul_le_of_le_one_right (le_of_lt i0) f1
+
+section intex
+attribute [local instance] Solver.Example.intFloatLike
+
+/-- non-vacuity of the solve-level theorems, part (a): trajectories with a record that is not the
+last one exist — on the kernel-evaluable instance of `Lemmas/SolverModelExample.lean` (scalar `Int`:
+minimise `x` s.t. `x + s = 1`, `s ≥ 0`, `max_iter = 3`) `new` followed by `solve()` returns a
+trajectory of TWO records (one accepted pass, then the pass that finds `Solved`); the first pass
+after `default_start()` on the instance of `StepInitPointExample.lean` is accepted as well -/
+example : (∃ r : SolveResult Int, Solver.Example.run 3 = .ok r ∧ 0 + 1 < r.traj.length)
+    ∧ ∃ L L' : LoopSt Int, pass (Solver.Example.st 3) L = .ok (true, L') := by
+  refine ⟨?_, Solver.InitExample.pass_exists⟩
+  have h := Solver.Example.run3
+  cases hr : Solver.Example.run 3 with
+  | error e => rw [hr] at h; cases h
+  | ok r =>
+    rw [hr] at h
+    simp only [Except.toOption, Option.map_some, Option.some.injEq, Prod.mk.injEq] at h
+    refine ⟨r, rfl, ?_⟩
+    have : r.traj.length = 2 := h.1
+    omega
+
+end intex
+
+/-- non-vacuity, part (b): the hypotheses of `solve_every_pass_is_newton_total` other than `PassExact`
+are satisfiable over ℝ — on `min x s.t. x + s = 1, s ≥ 0` with the default settings
+(`Solver.FullExample`) the input is well formed, the cone modelled, the ordering valid, the
+regularisation leaves no zero pivot, `0 < max_step_fraction = 0.99 < 1`, `max_value > 0` — so `new` and
+`solve()` return there and the conclusion (an implication from `PassExact` of the passes of that run)
+holds of that run; `PassExact` is the conjunction of the exactness hypotheses of
+`pass_is_newton_step`, satisfiable by part (b) of its non-vacuity example -/
+example : ∃ S r, Solver.Solver.new Solver.FullExample.P #[1] Solver.FullExample.A #[1]
+      ([.nonneg 1] : List (ConeT ℝ)) Solver.FullExample.stR #[0, 1] = .ok S
+    ∧ S.solve Solver.FullExample.stR = .ok r
+    ∧ ((∀ L L', SolvePass S Solver.FullExample.stR L L' → PassExact L L' S.st.data.n S.st.data.m) →
+      ∀ (k : ℕ) (p : PassRec ℝ), r.traj[k]? = some p → k + 1 < r.traj.length →
+        ∃ (L L' : LoopSt ℝ), SolvePass S Solver.FullExample.stR L L'
+          ∧ PassIsNewton Solver.FullExample.stR L L' S.st.data.n S.st.data.m) := by
+  obtain ⟨-, -, -, s0, s1, sm, -, -⟩ := Solver.FullExample.stR_ok
+  obtain ⟨S, r, hnew, hr, h⟩ := solve_every_pass_is_newton_total Solver.FullExample.inputOK
+    Solver.FullExample.modelled (by decide) (Solver.FullExample.permFor Solver.FullExample.stR rfl)
+    Solver.FullExample.stR_pivotOK s0 s1 sm
+  refine ⟨S, r, hnew, hr, fun hex k p hk hl => ?_⟩
+  obtain ⟨L, L', p', hsp, _, _, _, _, _, _, _, _, _, _, _, _, _, _, hN⟩ := h hex k p hk hl
+  exact ⟨L, L', hsp, hN⟩
+
+/-- non-vacuity of `solve_pass_factor_range` / `solve_residuals_monotone` / `solve_residuals_product`
+/ `solve_every_pass_is_newton`, part (c): over ℝ, on the instance of part (b), the solver object
+satisfies `SolverInvQ`, `solve()` returns, the settings hypotheses hold and the trajectory has a
+record `k = 0` (every `solve()` makes at least one pass) -/
+example : ∃ S r, Solver.Solver.new Solver.FullExample.P #[1] Solver.FullExample.A #[1]
+      ([.nonneg 1] : List (ConeT ℝ)) Solver.FullExample.stR #[0, 1] = .ok S
+    ∧ SolverInvQ S ∧ S.solve Solver.FullExample.stR = .ok r ∧ 0 < r.traj.length
+    ∧ 0 < Solver.FullExample.stR.maxStepFraction ∧ Solver.FullExample.stR.maxStepFraction < 1
+    ∧ 0 < Solver.FullExample.stR.maxValue := by
+  obtain ⟨-, -, -, s0, s1, sm, -, -⟩ := Solver.FullExample.stR_ok
+  obtain ⟨S, r, hnew, hr, hI, -⟩ := Solver.run_total Solver.FullExample.inputOK
+    Solver.FullExample.modelled (by decide) (Solver.FullExample.permFor Solver.FullExample.stR rfl)
+    Solver.FullExample.stR_pivotOK Solver.fmaxOK_real
+  refine ⟨S, r, hnew, hI, hr, ?_, s0, s1, sm⟩
+  obtain ⟨S0, Lm, Lf, -, -, hb, ht⟩ := Solver.solve_traj_states hr
+  obtain ⟨p, e, -⟩ := Solver.pass_record hb
+  rw [ht, e, List.length_append, List.length_singleton]
+  omega
+
+end solve
 
 end Clarabel.C06
